@@ -31,12 +31,23 @@ LEVEL_TEXT = ("Proof: in the model of the gridding / rate-lookup / accumulation 
               "before it, tile edges and corners included; a session of in-place re-orderings of the rows of ONE catalog "
               "object shows every evaluation of the session the same gridded arrays. "
               "Tied to the code by running all 18 public evaluations on permuted inputs every run: new catalog objects, "
-              "shared region / forecast objects, and one catalog object re-ordered in place between rounds.")
+              "shared region / forecast objects, and one catalog object re-ordered in place between rounds. "
+              "Round 4: (i) the catalog-based S / PL / M / resampled-M / MLL tests of C10's concrete model (whole Result incl. the "
+              "undersampled branch, nan removal, skipped empty catalogs) are proved independent of the storage order of the synthetic "
+              "catalogs in ANY arithmetic (integer sums), and of the observed events; (ii) 'to rounding' is now a theorem: for binary64 "
+              "terms summed in ANY two orders and bracketings (numpy.sum pairwise blocks, sum(), cumsum) the results differ by at most "
+              "((1+u)^d + (1+u)^d' - 2) * sum|x|, u = 2^-53 (float_sum_any_order_close; explicit (d+d')*2^-52*sum|x| up to 2^52 terms), "
+              "sums of counts below 2^53 are exact in every order (float_sum_integers_exact); numpy.sum's pairwise algorithm and the "
+              "sequential sum are modelled on Soft64 and agree with numpy bit for bit on every generated term list.")
 LEVEL_NOTE = ("The model takes the (cell, bin) index of each event as given for Cartesian regions (region lookup is property "
               "C01/C02), for quadtree regions it locates the events itself from the region's boxes (first hit, no memory) and takes the "
               "random stream as an input; scipy's poisson/nbinom/t/norm distribution functions and rankdata are represented "
-              "by their specification or left as parameters; float rounding of log/sum is not modelled (results are "
-              "compared to 1e-9 relative, seeded simulations bit for bit).")
+              "by their specification or left as parameters; float rounding of log is not modelled; float rounding of SUMS is bounded by "
+              "theorem (Properties/C20_FloatSum.lean) but the bracketing numpy.sum uses is only validated, not proved to be a tree of the "
+              "theorem's kind; results are compared to 1e-9 relative, seeded simulations bit for bit. Storage orders exercised since "
+              "round 4: memory layout of the rate arrays (C / Fortran / transposed / negatively strided / sliced), cell order of CSEP1 "
+              "ascii forecast FILES and catalog order of csep-ascii catalog-forecast FILES read by the library's loaders; every "
+              "statistic also against the exact-reference models (c05_test, c16_test, c10_s/pl/m, c20_ttest/wtest).")
 DESIGN_REF = "DESIGN.md §4 C20"
 TECHNIQUE = "Lean 4 proof (List.Perm, right-commuting folds) + metamorphic correspondence harness"
 
@@ -57,14 +68,24 @@ THEOREMS = ["PermInv.counts_perm", "PermInv.counts_spec", "PermInv.target_rates_
             "PermInv.Concrete.poisson_testStat_perm_cells", "PermInv.Concrete.binary_brier_perm",
             "PermInv.Concrete.binary_brier_perm_cells", "PermInv.Concrete.catalog_meanRates_perm",
             "PermInv.Concrete.catalog_numberTest_perm", "PermInv.Concrete.catalogNTest_perm",
-            "PermInv.Concrete.forecastIter_accumulate_perm"]
+            "PermInv.Concrete.forecastIter_accumulate_perm",
+            # round 4 (Properties/C20_Catalog.lean, Properties/C20_FloatSum.lean)
+            "PermInv.Concrete.quantiles_perm", "PermInv.Concrete.catalog_spatialTest_perm",
+            "PermInv.Concrete.catalog_pseudolikelihoodTest_perm", "PermInv.Concrete.catalog_magnitudeTest_perm",
+            "PermInv.Concrete.catalog_unionHist_perm", "PermInv.Concrete.catalog_resampled_mll_perm",
+            "PermInv.Concrete.catalog_tests_perm_observed",
+            "FloatSum.float_sum_bracketing_error", "FloatSum.float_sum_any_order_close", "FloatSum.pow_bound",
+            "FloatSum.float_sum_any_order_close_explicit", "FloatSum.seq_sum_perm_close", "FloatSum.float_sum_integers_exact",
+            "FloatSum.float_sum_integers_any_order"]
 TRUSTED = ["Lean 4.33 kernel", "axioms: propext, Classical.choice, Quot.sound at most",
            "the (cell, bin) index the region lookup assigns to an event is an input of the model (events are generated "
            "strictly inside cells and bins; the lookup itself is properties C01/C02)",
            "scipy.stats poisson/nbinom cdf, t.ppf, norm.sf are deterministic functions of their arguments; "
            "scipy.stats.rankdata(method='average') is modelled by #less + (#equal + 1)/2",
            "numpy.random streams: the model takes the uniform numbers as input; the harness fixes the seed",
-           "Float log/sum rounding is not modelled: Lean Float results are compared with numpy to 1e-9 relative",
+           "Float log rounding is not modelled: Lean Float results are compared with numpy to 1e-9 relative; numpy.sum's bracketing is "
+           "modelled (FloatSum.pairwiseSum) and validated bit for bit every run, the error bound is proved for every bracketing",
+           "numpy.loadtxt / csv reading of the forecast files the harness writes (decimal text of shortest round-trip reprs)",
            "quadtree tile boxes are read from region.bounds (their values are property C17); mercantile gives the generator "
            "the same edge coordinates",
            "harness/c20.py generators, permutation plumbing and comparison; driver parsing (Proto.lean, Drive/C20.lean)"]
@@ -90,7 +111,13 @@ RULE = ("random regions of 1..40 cells (random subsets of a lattice, stored in r
         "caller seeding numpy's global generator with seed=None / by injected random_numbers (CL, S, M); a third of the "
         "cases hand N / NBD-N / L / CL / binary-CL / Brier an observed catalog WITHOUT region (the test binds the "
         "forecast's), also as a shared object in the in-place session; one (thorough: three) catalog with more than 2^16 "
-        "observed events per run")
+        "observed events per run. Round 4: the rate arrays of the base input, of two extra variants per case and of every cell "
+        "permutation are stored C-contiguous / Fortran-contiguous / as a transposed view / negatively strided / as a strided slice "
+        "(no ascontiguousarray anywhere); Cartesian cases also write both forecasts to CSEP1 ascii files with the cell blocks in the "
+        "base order, latitude-major north-to-south, lon-major ascending and shuffled, and the synthetic catalogs to a csep-ascii "
+        "catalog-forecast file in two catalog orders (explicit rows for empty catalogs), load them with GriddedForecast.load_ascii / "
+        "csep.load_catalog_forecast and evaluate: every order must agree with the in-memory base input and with the exact-reference "
+        "models")
 
 REL, ABS = 1e-9, 1e-12
 GRIDDED_SIM = ["poisson_L", "poisson_CL", "poisson_S", "poisson_M", "binary_S", "binary_CL", "brier"]
@@ -173,7 +200,56 @@ def _inplace_steps(rng, n_perms, big):
     return steps
 
 
+LAYOUTS = ["C", "F", "T", "neg", "slice"]
+
+
+def _lay(a, how):
+    """an array equal to `a` element by element (same shape, same logical order) in another MEMORY layout - storage order of
+    the rates: C-contiguous, Fortran-contiguous, transposed view, negatively strided view, strided slice of a larger array"""
+    a = numpy.asarray(a, dtype=float)
+    if how in (None, "C") or a.ndim != 2:
+        return a.copy()
+    if how == "F":
+        out = numpy.asfortranarray(a.copy())
+    elif how == "T":
+        out = numpy.ascontiguousarray(a.T).T
+    elif how == "neg":
+        out = a[::-1, ::-1].copy()[::-1, ::-1]
+    else:
+        big = numpy.full((2 * a.shape[0] + 1, a.shape[1] + 2), 777.0)
+        big[1::2, 1:a.shape[1] + 1] = a
+        out = big[1::2, 1:a.shape[1] + 1]
+    assert out.shape == a.shape and numpy.array_equal(out, a)
+    return out
+
+
 def gen_input(rng, tier, force=None):
+    """`_gen_input_core` plus the storage orders of round 4: the MEMORY LAYOUT of the rate arrays (base input, extra variants
+    that differ from the base in nothing else, every cell permutation) and - Cartesian regions - the order of the cell blocks
+    in a CSEP1 ascii FORECAST FILE the forecast is written to and loaded from with the library's loader"""
+    inp = _gen_input_core(rng, tier, force)
+    nc = len(inp["origins"])
+    inp["layout"] = rng.choice(["C", "C", "F", "T", "neg", "slice"])
+    inp["layout_variants"] = rng.sample([l for l in LAYOUTS if l != inp["layout"]], 2)
+    inp["cell_layouts"] = [rng.choice(LAYOUTS) for _ in inp["cell_perms"]]
+    n_cat = len(inp["cats"])
+    if n_cat >= 1 and "qt" not in inp:
+        sh = list(range(n_cat))
+        rng.shuffle(sh)
+        inp["cat_file_perms"] = [list(range(n_cat)), sorted(range(n_cat), key=lambda i: len(inp["cats"][i])) if rng.random() < 0.5 else sh]
+    if "qt" not in inp and inp.get("origin_style", "clean") == "clean":            # files carry decimal text: clean lattices only
+        orders = [list(range(nc))]                                                   # the base order itself
+        o = inp["origins"]
+        orders.append(sorted(range(nc), key=lambda i: (-o[i][1], o[i][0])))          # latitude-major, north to south
+        orders.append(sorted(range(nc), key=lambda i: (o[i][0], o[i][1])))           # CSEP1 canonical: lon-major ascending
+        sh = list(range(nc))
+        rng.shuffle(sh)
+        orders.append(sh)
+        inp["file_perms"] = orders if tier != "quick" else [orders[0], orders[rng.choice([1, 1, 3])], orders[2]][:2 + (rng.random() < 0.5)]
+    return inp
+
+
+def _gen_input_core(rng, tier, force=None):
     """one explicit, JSON-able input: region, magnitudes, two forecasts, observed events, synthetic catalogs, permutations"""
     big = tier == "thorough"
     shape = force or rng.choice(["subset", "subset", "subset", "rect", "row", "col", "single", "subset-large",
@@ -199,7 +275,33 @@ def gen_input(rng, tier, force=None):
         cells = rng.sample(lattice, k)
     cells = cells[:40]
     rng.shuffle(cells)                      # storage order of the base input is already arbitrary
+    # round 5: origins as users COMPUTE them, not as clean decimals: lon - 360, k * dh accumulated from the first edge,
+    # numpy.linspace - the same lattice up to round-off (often just BELOW the clean edge)
+    ostyle = rng.choice(["clean", "clean", "clean", "minus360", "minus360", "accumulated", "linspace", "scaled"])
+    if ostyle != "clean" and shape != "single" and rng.random() < 0.6:
+        # a dense lattice (every cell has stored neighbours), stored in random order
+        dense = [(i, j) for i in range(max(i for i, _ in cells) + 1) for j in range(max(j for _, j in cells) + 1)][:40]
+        if len(dense) >= 2:
+            rng.shuffle(dense)
+            cells = dense
     origins = [[_r(x0 + i * dh), _r(y0 + j * dh)] for i, j in cells]
+    if ostyle != "clean":
+        imax, jmax = max(i for i, _ in cells), max(j for _, j in cells)
+
+        def axis(a0, kmax):
+            if ostyle == "minus360":
+                return [(_r(a0 + k * dh) + 360.0) - 360.0 for k in range(kmax + 1)]
+            if ostyle == "accumulated":
+                out, v = [], a0
+                for _ in range(kmax + 1):
+                    out.append(v)
+                    v = v + dh
+                return out
+            if ostyle == "linspace":
+                return [float(v) for v in numpy.linspace(a0, a0 + kmax * dh, kmax + 1)]
+            return [a0 + k * dh for k in range(kmax + 1)]              # "scaled": one multiplication and one addition
+        ax, ay = axis(x0, imax), axis(y0, jmax)
+        origins = [[ax[i], ay[j]] for i, j in cells]
     nc = len(origins)
     nb = rng.choice([1, 2, 3, 3, 4, 5, 6])
     dm = rng.choice([0.1, 0.5, 1.0])
@@ -224,7 +326,7 @@ def gen_input(rng, tier, force=None):
     cell_perms = _perm_list(rng, nc, nperm)
     if nc >= 2:
         cell_perms[1] = sorted(range(nc), key=lambda i: (origins[i][0], origins[i][1]))   # lexicographically sorted cells
-    return dict(shape=shape, dh=dh, origins=origins, mags=mags, dm=dm, rates1=rates1, rates2=rates2, kinds=[kind1, kind2],
+    return dict(origin_style=ostyle, shape=shape, dh=dh, origins=origins, mags=mags, dm=dm, rates1=rates1, rates2=rates2, kinds=[kind1, kind2],
                 events=events, cats=cats, ev_perms=ev_perms, cat_perms=cat_perms, cell_perms=cell_perms,
                 inplace=_inplace_steps(rng, nperm, big), kw=_gen_kw(rng),
                 seed=rng.randrange(0, 2 ** 31), nsim=rng.choice([5, 10, 20]), variance_factor=rng.choice([1.5, 3.0, 10.0]))
@@ -446,7 +548,33 @@ def _region(inp, sigma, identity, events, mags):
         return QuadtreeGrid2D.from_catalog(CSEPCatalog(data=_rows(events)), qt["threshold"], zoom=qt["zoom"], magnitudes=mags)
 
 
-def _objects(inp, ev_perm=None, cat_perm=None, cell_perm=None, share=None):
+def _write_forecast_file(path, inp, sigma, rates):
+    """CSEP1 ascii forecast file (Lon_0 Lon_1 Lat_0 Lat_1 z_0 z_1 Mag_0 Mag_1 Rate Flag; magnitude bins fastest, then the
+    cells in the order `sigma`): shortest round-trip decimals, so the loader reads the very doubles"""
+    dh, dm, mags = inp["dh"], inp["dm"], inp["mags"]
+    with open(path, "w") as f:
+        for i in sigma:
+            x, y = inp["origins"][i]
+            for k, m in enumerate(mags):
+                f.write(" ".join(repr(float(v)) for v in (x, _r(x + dh), y, _r(y + dh), 0.0, 30.0, m, _r(m + dm), rates[i][k], 1.0)) + "\n")
+
+
+def _write_catalog_forecast_file(path, cats, skip_empty=False):
+    """csep-ascii catalog-forecast file (lon,lat,mag,time_string,depth,catalog_id,event_id): the catalogs in THIS order,
+    catalog_id = position in the file; a catalog without events is one row that only carries its id or - the format's other
+    legal spelling, `skip_empty` - is left out (its id is skipped), except the last catalog, which is always spelled out"""
+    import datetime
+    with open(path, "w", newline="") as f:
+        f.write("lon,lat,mag,time_string,depth,catalog_id,event_id\n")
+        for cid, evs in enumerate(cats):
+            if not evs and not (skip_empty and cid < len(cats) - 1):
+                f.write(f",,,,,{cid},\n")
+            for e in evs:
+                t = datetime.datetime(1970, 1, 1) + datetime.timedelta(milliseconds=int(e[1]))
+                f.write(f"{float(e[3])!r},{float(e[2])!r},{float(e[5])!r},{t.strftime('%Y-%m-%dT%H:%M:%S.%f')},{float(e[4])!r},{cid},{e[0]}\n")
+
+
+def _objects(inp, ev_perm=None, cat_perm=None, cell_perm=None, share=None, layout=None, via_file=False, cf_via_file=False):
     """pyCSEP objects of one variant. share: the objects of another variant with the same cell order whose region and
     forecast OBJECTS are re-used (only the catalogs are new) - state kept on a region or forecast between evaluations of
     differently ordered catalogs is then exercised"""
@@ -476,13 +604,36 @@ def _objects(inp, ev_perm=None, cat_perm=None, cell_perm=None, share=None):
                 row = {q: i for i, q in enumerate(inp["qt"]["keys"])}
                 d1 = numpy.array([inp["rates1"][row.get(q, 0)] for q in got], dtype=float)
                 d2 = numpy.array([inp["rates2"][row.get(q, 0)] for q in got], dtype=float)
-        f1 = GriddedForecast(data=d1.copy(), region=region, magnitudes=mags, name="f1")
-        f2 = GriddedForecast(data=d2.copy(), region=region, magnitudes=mags, name="f2")
+        lay = layout or inp.get("layout", "C")
+        f1 = GriddedForecast(data=_lay(d1, lay), region=region, magnitudes=mags, name="f1")
+        f2 = GriddedForecast(data=_lay(d2, lay), region=region, magnitudes=mags, name="f2")
+    if via_file:
+        import os
+        import tempfile
+        with tempfile.TemporaryDirectory(prefix="c20_") as td:
+            p1, p2 = os.path.join(td, "f1.dat"), os.path.join(td, "f2.dat")
+            _write_forecast_file(p1, inp, sigma, inp["rates1"])
+            _write_forecast_file(p2, inp, sigma, inp["rates2"])
+            f1 = GriddedForecast.load_ascii(p1, name="f1")
+            f2 = GriddedForecast.load_ascii(p2, name="f2")
+        region = f1.region            # the region the loader built from the file's cells, in the file's order
 
     def mk_cat(evs, cid=None, with_region=True):
         return CSEPCatalog(data=_rows(evs), region=region if with_region else None, catalog_id=cid)
 
+    keep = []
+
     def mk_cf():
+        if cf_via_file:
+            # the synthetic catalogs through a FILE, in this storage order, read back by the library's loader
+            import csep
+            import os
+            import tempfile
+            td = tempfile.TemporaryDirectory(prefix="c20cf_")
+            keep.append(td)                                   # lives as long as the variant's objects
+            path = os.path.join(td.name, "cf.csv")
+            _write_catalog_forecast_file(path, cats, skip_empty=(cf_via_file == "skip-empty"))
+            return csep.load_catalog_forecast(path, type="ascii", region=region, n_cat=len(cats), name="cf")
         cl = [mk_cat(c, k) for k, c in enumerate(cats)]
         return CatalogForecast(catalogs=cl, region=region, n_cat=len(cl), name="cf")
     if "qt" in inp:
@@ -495,7 +646,7 @@ def _objects(inp, ev_perm=None, cat_perm=None, cell_perm=None, share=None):
         boxes = None
         ev_cells, cat_cells = [pi[e[6]] for e in events], [[pi[e[6]] for e in c] for c in cats]
         nc_eff = nc
-    return SimpleNamespace(region=region, catalog=mk_cat(events), mk_catalog=lambda: mk_cat(events),
+    return SimpleNamespace(keep=keep, region=region, catalog=mk_cat(events), mk_catalog=lambda: mk_cat(events),
                            mk_catalog_nr=lambda: mk_cat(events, None, False), f1=f1, f2=f2, d1=d1,
                            d2=d2, mk_cf=mk_cf, sigma=sigma, pi=pi, nc=nc_eff, nb=len(inp["mags"]), events=events, cats=cats,
                            ev_cells=ev_cells, ev_bins=[e[7] for e in events], boxes=boxes, keys_ok=keys_ok,
@@ -684,6 +835,13 @@ def _compare(name, kind, base, other):
         if not _close_list(base["dist"], other["dist"]):
             return f"{name}: analytic distribution parameters {base['dist']} became {other['dist']}"
     elif name in GRIDDED_SIM or name in CATALOG_SEEDED:
+        if kind == "layout":
+            # same logical order of the rates in another memory layout: same sequence of simulated catalogs; only a total
+            # that numpy sums in memory order may differ in its last bit
+            if len(base["dist"]) != len(other["dist"]) or not _close_list(base["dist"], other["dist"]):
+                return f"{name}: simulated distribution changed with the memory layout of the rate array"
+            if not _quantile_band_ok(base, other) and not _close_list(base["q"], other["q"]):
+                return f"{name}: quantile score {base['q']} became {other['q']} with another memory layout of the rate array"
         if kind == "events":        # fixed seed, observed events re-ordered: bit for bit
             if not _bits_equal(base["dist"], other["dist"]):
                 k = next((i for i, (a, b) in enumerate(zip(base["dist"], other["dist"])) if a != b), None)
@@ -739,6 +897,28 @@ def _parse_counts(s):
     li = lambda t: [] if t == "-" else [int(v) for v in t.split(",")]
     return dict(spatial=li(sp), magnitude=li(mg), spaceMag=[] if sm == "-" else [li(r) for r in sm.split(";")],
                 occupancy=li(oc))
+
+
+def _private(mod, name, nparams, run):
+    """a PRIVATE helper of the tree under test that one correspondence op calls directly; None (counted, recorded as an
+    assumption) when it is gone or takes other arguments - the public evaluations reach the same mechanism"""
+    import inspect
+    fn = getattr(mod, name, None)
+    ok = callable(fn)
+    if ok:
+        try:
+            names = list(inspect.signature(fn).parameters)
+            ok = len(names) == nparams and names[-1] == "random_numbers"
+        except (TypeError, ValueError):
+            ok = False
+    if not ok:
+        key = f"helper-missing:{mod.__name__.split('.')[-1]}.{name}"
+        run.count(key)
+        note = f"{key}: direct correspondence skipped, the public evaluations decide"
+        if note not in run.assumptions:
+            run.assumptions.append(note)
+        return None
+    return fn
 
 
 def _guard(method):
@@ -873,6 +1053,32 @@ class _Corr:
                     self.run.count("concrete-model:c16_test")
 
     @_guard
+    def catalog_concrete(self, o, tag, outcomes):
+        """round 4: the CONCRETE models of the catalog-based S / PL / M tests (C10's `CatEvals.spatialTest`,
+        `pseudolikelihoodTest`, `magnitudeTest` - the functions `Properties/C20_Catalog.lean` proves independent of the
+        storage order of the synthetic catalogs) on THIS storage order of catalogs / events / cells: status, observed
+        statistic, the whole test distribution entry by entry (1e-9)"""
+        if not o.located or o.nc * o.nb * max(1, len(o.cats)) > 20000:
+            return
+
+        def grid(cells, bins):
+            g = [0] * (o.nc * o.nb)
+            for c, b in zip(cells, bins):
+                g[c * o.nb + b] += 1
+            return ",".join(map(str, g))
+        sims = ";".join(grid(c, b) for c, b in zip(o.cat_cells, o.cat_bins))
+        obs = grid(o.ev_cells, o.ev_bins)
+        if not sims:
+            return
+        for name, op in (("cat_S", "c10_s"), ("cat_PL", "c10_pl"), ("cat_M", "c10_m")):
+            oc = outcomes.get(name)
+            if not oc or "exc" in oc or "skipped" in oc:
+                continue
+            i = self.drv.ask(f"{op} {o.nc} {o.nb} {sims} {obs}")
+            self.todo.append(("catres", f"{tag}/concrete-C10/{name}", i, oc, o, None))
+            self.run.count("concrete-model:" + op)
+
+    @_guard
     def normll(self, o, tag, outcomes):
         oc = outcomes.get("cat_S")
         if not oc or "obs" not in oc or oc["status"] != "normal":
@@ -898,8 +1104,11 @@ class _Corr:
         if n == 0 or n / light > 300:
             return
         seed = rng.randrange(2 ** 31)
+        helper = _private(be, "_simulate_catalog", 4, self.run)
+        if helper is None:
+            return
         numpy.random.seed(seed)
-        sim = be._simulate_catalog(n, w, numpy.zeros(w.shape))
+        sim = helper(n, w, numpy.zeros(w.shape))
         numpy.random.seed(seed)
         us = numpy.random.uniform(0, 1, size=4000)
         i = self.drv.ask(f"c20_simbinary {flist(w)} {n} {flist(us)}")
@@ -913,7 +1122,10 @@ class _Corr:
         w = w / w[-1]
         n = len(o.ev_cells)
         us = numpy.array([rng.random() for _ in range(n)])
-        sim = pe._simulate_catalog(n, w, numpy.zeros(w.shape), random_numbers=us)
+        helper = _private(pe, "_simulate_catalog", 4, self.run)
+        if helper is None:
+            return
+        sim = helper(n, w, numpy.zeros(w.shape), random_numbers=us)
         i = self.drv.ask(f"c20_simulate {flist(w)} {n} {flist(us)}")
         self.todo.append(("simulate", tag, i, [int(v) for v in sim], o, None))
 
@@ -957,6 +1169,10 @@ class _Corr:
                 mv = [] if s == "-" else [int(v) for v in s.split(",")]
                 if mv != impl:
                     self.run.mismatch(case, impl, mv)
+            elif what == "catres":
+                why = _catres_differs(impl, s)
+                if why:
+                    self.run.mismatch(case, dict(why=why, implementation=_brief(impl)), s[:300])
             elif what == "locate":
                 mv = [] if s == "-" else [int(v) for v in s.split(",") if v != "x"]
                 if mv != impl:
@@ -981,6 +1197,65 @@ class _Corr:
                     self.run.mismatch(dict(self.case, variant=tag), "model mean rates differ under a permutation of catalogs", m)
                 if tag.startswith("mean/cells") and m != [b[i] for i in o.sigma]:
                     self.run.mismatch(dict(self.case, variant=tag), "model mean rates are not the re-indexed mean rates", m)
+
+
+def _catres_differs(oc, s):
+    """implementation outcome of a catalog-based test against the `status|observed|quantile|distribution` line of the
+    C10 driver ops; None when they agree at the granularity of the property"""
+    if s == "noresult":
+        return None if oc.get("none") else "the model returns no result (None)"
+    if oc.get("none"):
+        return "the implementation returns None, the model a result"
+    st, ob, _q, d = s.split("|")
+    if str(oc.get("status")) != {"normal": "normal", "undersampled": "undersampled", "not-valid": "not-valid"}[st]:
+        return f"status {oc.get('status')!r} vs {st!r}"
+    val = lambda x: -math.inf if x == "-inf" else _unbits(x)
+    io_ = oc["obs"][0] if oc.get("obs") else None
+    io_nan = io_ is None or (isinstance(io_, float) and math.isnan(io_))
+    if ob == "none":
+        if not io_nan:
+            return f"observed statistic {io_!r}, model: undefined"
+    elif io_nan or not _close(float(io_), val(ob)):
+        return f"observed statistic {io_!r} vs {val(ob)!r}"
+    md = [] if d == "-" else [val(x) for x in d.split(",")]
+    idist = [x for x in (oc.get("dist") or []) if x is not None]
+    if len(idist) != len(md) or not all(_close(float(a), b) for a, b in zip(idist, md)):
+        return f"test distribution differs (lengths {len(idist)} / {len(md)})"
+    return None
+
+
+def float_sum_cases(run, rng, n):
+    """round 4 (`Properties/C20_FloatSum.lean`): the two summation orders the evaluations use, as modelled on Soft64 -
+    sequential (`sum()`, `cumsum`) and numpy's pairwise `numpy.sum` - against Python / numpy bit for bit on term lists shaped
+    like log-likelihood terms, in storage order and permuted; and the proved bound |s - s'| <= (d + d')*2^-52*sum|x| on the
+    implementation's own floats. Statements about numpy (trusted base): counted, never a verdict."""
+    drv, todo = Driver(), []
+    for _ in range(n):
+        m = rng.choice([0, 1, 2, 5, 7, 8, 9, 16, 31, 64, 127, 128, 129, 200, 257, 600])
+        kind = rng.choice(["loglik", "counts", "mixed"])
+        if kind == "counts":
+            xs = [float(rng.randint(0, 50)) for _ in range(m)]
+        elif kind == "loglik":
+            xs = [rng.randint(1, 4) * math.log(10.0 ** rng.uniform(-6, 1)) for _ in range(m)]
+        else:
+            xs = [rng.uniform(-1, 1) * 10.0 ** rng.uniform(-12, 3) for _ in range(m)]
+        ys = list(xs)
+        rng.shuffle(ys)
+        todo.append((kind, xs, ys, drv.ask(f"c20_fsum {flist(xs)}"), drv.ask(f"c20_fsum {flist(ys)}")))
+    out = drv.run()
+    for kind, xs, ys, i, j in todo:
+        for terms, line in ((xs, out[i]), (ys, out[j])):
+            a, b = line.split(" ")
+            seq = 0.0
+            for x in terms:
+                seq += x
+            pw = float(numpy.sum(numpy.array(terms, dtype=float)))
+            run.count("float-sum:sequential-" + ("bitexact" if Fraction(a) == Fraction(seq) else "DIFFERS"))
+            run.count("float-sum:numpy-pairwise-" + ("bitexact" if Fraction(b) == Fraction(pw) else "DIFFERS"))
+        sx, sy = float(numpy.sum(numpy.array(xs))), float(numpy.sum(numpy.array(ys)))
+        bound = 2 * max(1, len(xs)) * Fraction(1, 2 ** 52) * sum(abs(Fraction(x)) for x in xs)
+        ok = abs(Fraction(sx) - Fraction(sy)) <= bound and (kind != "counts" or sx == sy)
+        run.count("float-sum:permuted-within-proved-bound" if ok else "float-sum:permuted-OUTSIDE-proved-bound")
 
 
 # ----------------------------------------------------------------------------- one case
@@ -1027,6 +1302,8 @@ def check_input(run, inp, rng, tag="gen"):
     nontrivial = distinct_ev or len(inp["cats"]) >= 2 or len(inp["origins"]) >= 2
     run.case(summary, repr((inp["origins"], inp["events"][:5], inp["seed"])) if nontrivial else None)
     run.count(f"shape:{inp['shape']}")
+    if "qt" not in inp:
+        run.count(f"origins:{inp.get('origin_style', 'clean')}")
     run.count(f"events:{'0' if not inp['events'] else ('1-3' if len(inp['events']) <= 3 else ('4-30' if len(inp['events']) <= 30 else '31+'))}")
     run.count(f"rates:{inp['kinds'][0]}")
     full = dict(summary, inp=compact)
@@ -1059,6 +1336,7 @@ def check_input(run, inp, rng, tag="gen"):
         corr.tw(base_o, "orig", base)
         corr.binary(base_o, "orig", base)
         corr.concrete(base_o, "orig", base)
+        corr.catalog_concrete(base_o, "orig", base)
         corr.normll(base_o, "orig", base)
         if qt:
             corr.locate(base_o, "orig")
@@ -1100,8 +1378,39 @@ def check_input(run, inp, rng, tag="gen"):
         o, res = variant("catalogs", k, CATALOG_, cat_perm=p, share=base_o if k % 2 else None)
         if sane(o, f"cats{k}"):
             corr.mean(o, f"cats{k}")
+            if k == 0:
+                corr.catalog_concrete(o, f"cats{k}", res)
+    # memory layout of the rate arrays as a storage order: nothing else changes
+    GRIDDED_ = _names(inp, GRIDDED)
+    for k, lay in enumerate(inp.get("layout_variants") or []):
+        o, res = variant("layout", k, GRIDDED_, layout=lay)
+        run.count(f"layout-variant:{inp.get('layout', 'C')}->{lay}")
+        if k == 0 and sane(o, f"layout{k}"):
+            corr.jointll(o, f"layout{k}", res)
+            corr.tw(o, f"layout{k}", res)
+            corr.binary(o, f"layout{k}", res)
+            corr.concrete(o, f"layout{k}", res)
+    # the forecasts written to CSEP1 ascii files with the cell blocks in several orders and loaded with the library's loader
+    for k, p in enumerate(inp.get("file_perms") or []):
+        o, res = variant("cells", 100 + k, GRIDDED_, cell_perm=p, via_file=True)
+        run.count("file-variant:gridded-ascii")
+        if sane(o, f"file{k}"):
+            corr.counts(o, f"cells-file{k}")
+            corr.jointll(o, f"file{k}", res)
+            corr.binary(o, f"file{k}", res)
+            corr.concrete(o, f"file{k}", res)
+            if k == 0:
+                corr.tw(o, f"file{k}", res)
+    # the catalog forecast written to a csep-ascii file with its catalogs in several orders, loaded with the library's loader
+    for k, p in enumerate(inp.get("cat_file_perms") or []):
+        o, res = variant("catalogs", 100 + k, CATALOG_, cat_perm=p, cf_via_file="skip-empty" if k % 2 else "explicit")
+        run.count("file-variant:catalog-forecast-ascii:" + ("empty-catalogs-skipped" if k % 2 else "empty-catalogs-explicit"))
+        if sane(o, f"cats-file{k}"):
+            corr.mean(o, f"cats-file{k}")
+            if k == 0:
+                corr.catalog_concrete(o, f"cats-file{k}", res)
     for k, p in enumerate(inp["cell_perms"]):
-        o, res = variant("cells", k, ALL_, cell_perm=p)
+        o, res = variant("cells", k, ALL_, cell_perm=p, layout=(inp.get("cell_layouts") or ["C"] * (k + 1))[k])
         if sane(o, f"cells{k}"):
             corr.counts(o, f"cells{k}")
             corr.mean(o, f"cells{k}")
@@ -1109,6 +1418,7 @@ def check_input(run, inp, rng, tag="gen"):
                 corr.jointll(o, f"cells{k}", res)
                 corr.binary(o, f"cells{k}", res)
                 corr.concrete(o, f"cells{k}", res)
+                corr.catalog_concrete(o, f"cells{k}", res)
                 corr.normll(o, f"cells{k}", res)
     if not inp.get("no_session"):
         nvar += _inplace_session(run, inp, base_o, base, corr, judge)
@@ -1220,7 +1530,7 @@ def run(run, rng, tier):
     shapes = ["single", "qt-single", "row", "qt-quadkeys", "col", "qt-catalog", "rect", "subset", "subset-large"]
     # fixed case counts (deterministic for a seed); the wall-clock budget is only a safety cap on slow machines
     budget = 100.0 if tier == "quick" else 900.0
-    ncases = 135 if tier == "quick" else 1000
+    ncases = 115 if tier == "quick" else 1000
     t0 = time.time()
     k = 0
     while k < ncases and (time.time() - t0 < budget or k < len(shapes)):
@@ -1233,11 +1543,13 @@ def run(run, rng, tier):
         while not inp["events"]:
             inp = gen_input(rng, tier, force="rect")
         inp = dict(inp, tile=65536 + rng.randint(1, 999), ev_perms=inp["ev_perms"][:1], cat_perms=[], cell_perms=inp["cell_perms"][:1],
-                   inplace=[], no_session=True, nsim=5,
+                   inplace=[], no_session=True, nsim=5, layout_variants=(inp.get("layout_variants") or [])[:1],
+                   file_perms=(inp.get("file_perms") or [])[1:2], cat_file_perms=[], cell_layouts=(inp.get("cell_layouts") or ["C"])[:1],
                    only=["poisson_N", "poisson_L", "poisson_CL", "poisson_S", "poisson_M", "nbd_N", "paired_T", "W", "cat_N"])
         check_input(run, inp, rng, tag="long-catalog")
         k += 1
     run.extra["generated_cases"] = k
+    float_sum_cases(run, rng, 60 if tier == "quick" else 600)
 
 
 def replay(run, payload):
